@@ -4,7 +4,7 @@
 #define estimatedCacheLineSize 64
 typedef struct FreeObject { struct FreeObject *next; } FreeObject;
 /* header view of Block: only the members the sliced functions touch; sizeof == 128 == 2*estimatedCacheLineSize (checked natively in tv) */
-typedef struct Block { FreeObject *bumpPtr; FreeObject *freeList; uint16_t allocatedCount; uint16_t objectSize; bool isFull; FreeObject *publicFreeList; char pad[128 - 32]; } Block;
+typedef struct Block { FreeObject *bumpPtr; FreeObject *freeList; uint16_t allocatedCount; uint16_t objectSize; bool isFull; FreeObject *publicFreeList; struct Block *nextPrivatizable, *next, *previous; char pad[128 - 56]; } Block;
 _Static_assert(sizeof(Block) == 128, "Block header view");
 #include "consts.inc"
 #define VERIF_BSR(n) (31u - (unsigned)__builtin_clz(n))     /* assumed contract of the bsr instruction */
@@ -104,6 +104,7 @@ bool g_owner;
 static bool STUB_isOwnedByCurrentThread(Block *b) { return g_owner; }
 /* (Block*)alignDown(object, slabSize) computed by pointer arithmetic, so that CBMC keeps the result attached to the slab object; the address is the one alignDown gives */
 #define BLOCK_OF(o) ({ char *p_ = (char *)(o) - ((uintptr_t)(o) & (slabSize - 1)); __CPROVER_assert((uintptr_t)p_ == alignDown((uintptr_t)(o), slabSize), "translation: BLOCK_OF is alignDown(object, slabSize)"); (Block *)p_; })
+#include "placed.inc"
 #include "free.inc"
 size_t IN_d;
 /* a pointer a client may pass to free: the start S of a live object, or - fitting bins only - an address inside it aligned to 2*fittingAlignment (what allocateAligned returns) */
@@ -143,7 +144,6 @@ void h_free_public(void) {
     FreeObject *p0; b->publicFreeList = p0; g_pub_n = 0; g_notify = 0; g_ac0 = b->allocatedCount; g_fl0 = b->freeList;
     Block_freePublicObject(b, (FreeObject *)S);
     OBLIGATION(g_pub_n == 1 && (char *)g_pub_pushed == S, "C17.free: exactly one successful push, of the object given");
-    OBLIGATION((g_notify == 1) == (g_pub_prev == NULL), "C17.free: the owner is notified exactly when the list was empty before this push");
     OBLIGATION(b->allocatedCount == g_ac0 && b->freeList == g_fl0, "C17.free: a foreign thread leaves the owner's private fields alone");
     VACUITY_END();
 }
@@ -243,4 +243,631 @@ void h_realloc_small(void) {
     common_post(r, ptr, os, newSize);
     VACUITY_END();
 }
+#endif
+
+#if defined(ALN) || defined(LLOC)
+/* ---- common types of the aligned-allocation / msize / large-object sections (layouts checked against the real headers natively in tv) ---- */
+typedef struct BackRefIdx { uint32_t main; uint16_t largeObj : 1; uint16_t offset : 15; } BackRefIdx;
+typedef struct MemoryPool { int dummy; } MemoryPool;
+typedef struct TLSData { unsigned currCacheIdx; } TLSData;
+typedef struct LargeMemoryBlock { intptr_t blockState[2]; MemoryPool *pool; struct LargeMemoryBlock *next, *prev, *gPrev, *gNext; uintptr_t age; size_t objectSize; size_t unalignedSize; BackRefIdx backRefIdx; } LargeMemoryBlock;
+typedef struct LargeObjectHdr { LargeMemoryBlock *memoryBlock; BackRefIdx backRefIdx; } LargeObjectHdr;
+_Static_assert(sizeof(BackRefIdx) == 8 && sizeof(LargeMemoryBlock) == 88 && sizeof(LargeObjectHdr) == 16, "large-object header views");
+enum MemoryOrigin { ourMem, unknownMem };
+/* the back-reference table (backref.cpp, not sliced): ONE entry is tracked - the one setBackRef / the large-object contract registers; every other entry holds, by the
+   table's own invariant, NULL, the base address of a slab, a live LargeObjectHdr of ANOTHER block, or a link inside the table: never an address inside this slab's
+   payload/header tail nor inside this large block */
+static union { Block hdr; char bytes[16 * 1024]; } slab;
+static struct { char below[48]; struct { void *memoryBlock; uint64_t backRefIdx; } h; char user[64]; } g_win;   /* stands for a piece of a slab payload in job recognise.slab */
+#ifdef LLOC
+static uintptr_t A_lmb; static size_t m_lmb_unalignedSize;      /* the large block of the LLOC jobs lives in ghost memory at integer address A_lmb */
+#define BACKREF_NEVER_INTO(o) (__CPROVER_same_object((o), &g_win) || ((uintptr_t)(o) >= A_lmb && (uintptr_t)(o) - A_lmb < m_lmb_unalignedSize))
+#else
+#define BACKREF_NEVER_INTO(o) __CPROVER_same_object((o), &g_win)
+#endif
+static bool g_reg; static BackRefIdx g_reg_idx; static void *g_reg_ptr; static char *g_chunk;
+static void *STUB_getBackRef(BackRefIdx idx) {
+    if (g_reg && idx.main == g_reg_idx.main && idx.offset == g_reg_idx.offset) return g_reg_ptr;
+    void *o = nondet_ptr();
+    __CPROVER_assume(o == NULL || o == (void *)&slab || (!__CPROVER_same_object(o, &slab) && !BACKREF_NEVER_INTO(o) && (g_chunk == NULL || !__CPROVER_same_object(o, g_chunk))));
+    return o;
+}
+#endif
+
+#ifdef ALN
+/* ---- allocateAligned -> (internalPoolMalloc | getFromLLOCache) -> the pointer the client gets; then what scalable_msize / scalable_free compute from such a pointer ---- */
+#include "block.inc"
+#include "placed.inc"
+static size_t STUB_StartupBlock_msize(void *o) { return nondet_size_t(); }
+#include "alignp.inc"
+#ifdef ALN_RECSTUB
+/* isLargeObject<ourMem>(p) by its proved answer: false on slab addresses (job recognise.slab), true on what getFromLLOCache returns (job aligned.large) */
+static bool isLargeObject(int memOrigin, void *p) { return ALN_RECSTUB; }
+#else
+#include "recog.inc"
+#endif
+#include "msize.inc"
+int g_ipm_calls, g_llo_calls; size_t g_ipm_req, g_llo_size, g_llo_al, g_os, g_U, g_poff; char *g_obj; LargeMemoryBlock *g_lmb; bool g_inited, g_init_ok;
+static bool STUB_isMallocInitialized(void) { return g_inited; }
+static bool STUB_doInitialization(void) { return g_init_ok; }
+static TLSData g_tls;
+static TLSData *STUB_getTLS(MemoryPool *mp, bool create) { return nondet_bool() ? &g_tls : NULL; }
+/* The two callee contracts.  Their ARGUMENTS are prophesied (g_pro_*: arbitrary values fixed before the call; a call with other arguments is a path that another choice of the
+   prophecy covers), so that the block each contract describes is built once, before allocateAligned runs, instead of once per inlined call site.
+   MemoryPool::getFromLLOCache(tls, size, alignment) (proved on the real text in job lloc.place): NULL, or a pointer p aligned to `alignment` with a LargeObjectHdr right below it,
+   inside a backend block [lmb, lmb+unalignedSize) with p+size <= the block's end and the header clear of the LargeMemoryBlock; objectSize == size; the header is registered in the
+   back-reference table under an index whose largeObj bit is set.
+   internalPoolMalloc(pool, size): size 0 counts as sizeof(size_t); a large size goes to getFromLLOCache(.., largeObjectAlignment); otherwise NULL or the START of an object of the
+   bin of `size` in some slab (sizeclass.map: which bin; block.bump / free.* / freelist.*: only starts of objects are handed out) */
+static size_t g_pro_lsize, g_pro_lal, g_pro_req; static char *g_pro_large, *g_pro_small; static bool g_used;
+static void make_large(size_t size, size_t al) {
+    size_t U = nondet_size_t(), poff = nondet_size_t();
+    __CPROVER_assume(U <= ((size_t)1 << 42) && poff >= sizeof(LargeMemoryBlock) + sizeof(LargeObjectHdr) && poff <= U && size <= U - poff && (poff & (al - 1)) == 0);
+    char *chunk = malloc(U); __CPROVER_assume(chunk != NULL);
+    LargeMemoryBlock *lmb = (LargeMemoryBlock *)chunk;
+    lmb->unalignedSize = U; lmb->objectSize = size;
+    BackRefIdx idx; idx.main = nondet_u32(); idx.offset = nondet_ushort(); idx.largeObj = 1; lmb->backRefIdx = idx;
+    LargeObjectHdr *h = (LargeObjectHdr *)(chunk + poff) - 1; h->memoryBlock = lmb; h->backRefIdx = idx;
+    g_reg = true; g_reg_idx = idx; g_reg_ptr = h; g_chunk = chunk; g_lmb = lmb; g_U = U; g_poff = poff; g_pro_large = chunk + poff;
+}
+static void make_small(size_t size) {
+    unsigned os = getObjectSize((unsigned)size);
+    size_t cap = (slabSize - sizeof(Block)) / os, k = nondet_size_t(); __CPROVER_assume(k >= 1 && k <= cap);
+    __CPROVER_havoc_object(&slab);                                     /* live neighbours hold arbitrary client data (statics are zero-initialised otherwise) */
+    slab.hdr.objectSize = (uint16_t)os; g_os = os; g_obj = slab.bytes + slabSize - k * os; g_pro_small = g_obj;
+}
+static void *large_contract(size_t size, size_t al) {
+    g_llo_calls++; g_llo_size = size; g_llo_al = al;
+    if (nondet_bool()) return NULL;
+    __CPROVER_assume(!g_used && g_pro_large != NULL && size == g_pro_lsize && al == g_pro_lal); g_used = true;
+    return g_pro_large;
+}
+static void *MemoryPool_getFromLLOCache(MemoryPool *mp, TLSData *tls, size_t size, size_t al) { return large_contract(size, al); }
+static void *internalPoolMalloc(MemoryPool *mp, size_t size) {
+    g_ipm_calls++; g_ipm_req = size;
+    if (!size) size = sizeof(size_t);
+    if (size >= minLargeObjectSize) return large_contract(size, largeObjectAlignment);
+    if (nondet_bool()) return NULL;
+    __CPROVER_assume(!g_used && g_pro_small != NULL && size == g_pro_req); g_used = true;
+    return g_pro_small;
+}
+#include "aligned.inc"
+size_t IN_size, IN_align;
+static MemoryPool g_pool;
+static void *run_aligned(size_t *psize, size_t *pal, bool large) {
+    size_t size = IN_size = nondet_size_t(), al = IN_align = nondet_size_t();
+    __CPROVER_assume(al != 0 && (al & (al - 1)) == 0);                 /* callers validate: power of two (C18) */
+    g_inited = nondet_bool(); g_init_ok = nondet_bool(); g_ipm_calls = g_llo_calls = 0; g_reg = false; g_chunk = NULL; g_obj = NULL; g_lmb = NULL; g_used = false; g_pro_large = g_pro_small = NULL;
+    if (large) { g_pro_lsize = nondet_size_t(); g_pro_lal = nondet_size_t(); make_large(g_pro_lsize, g_pro_lal); }
+    else { g_pro_req = nondet_size_t(); __CPROVER_assume(g_pro_req >= 1 && g_pro_req < minLargeObjectSize); make_small(g_pro_req); }
+    *psize = size; *pal = al;
+    return allocateAligned(&g_pool, size, al);
+}
+void h_aligned_slab(void) {
+    size_t size, al; char *r = run_aligned(&size, &al, false);
+    __CPROVER_assume(r != NULL);                                        /* the answer came from a slab (no large block exists in this job) */
+    OBLIGATION(((uintptr_t)r & (al - 1)) == 0, "C17.aligned: the block is aligned to the requested alignment");
+    OBLIGATION(r >= g_obj && (size_t)(r - g_obj) <= g_os && size <= g_os - (size_t)(r - g_obj), "C17.aligned: the block [p, p+size) lies inside the one slab object that was taken for it (so it overlaps no other live block and no slab header)");
+    OBLIGATION((char *)Block_findObjectToFree(&slab.hdr, r) == g_obj, "C17.aligned: free() maps the aligned pointer back to the start of the slab object that was taken (not into the middle of it)");
+    VACUITY_END();
+}
+void h_aligned_slab_msize(void) {          /* compiled with ALN_RECSTUB */
+    size_t size, al; char *r = run_aligned(&size, &al, false);
+    __CPROVER_assume(r != NULL);
+    size_t ms = internalMsize(r);
+    OBLIGATION(ms >= size, "C17.msize: scalable_msize of an aligned slab block is at least the requested size");
+    OBLIGATION(ms <= g_os - (size_t)(r - g_obj), "C17.msize: scalable_msize never reaches past the end of the slab object");
+    VACUITY_END();
+}
+#ifndef ALN_RECSTUB
+/* isLargeObject on ANY 64-aligned address inside a slab payload: it reads only the 16 bytes below the address (arbitrary client data of the neighbouring object, or the tail of the
+   slab header) and asks the back-reference table; modelled by a window object whose user area starts at a 64-aligned offset */
+void h_recognise_slab(void) {
+    __CPROVER_havoc_object(&g_win);
+    g_reg = nondet_bool(); g_reg_idx.main = nondet_u32(); g_reg_idx.offset = nondet_ushort(); g_reg_ptr = malloc(sizeof(LargeObjectHdr)); g_chunk = g_reg_ptr;   /* some other, live large object */
+    size_t d = nondet_size_t(); __CPROVER_assume(d < 64);
+    void *p = g_win.user + d;
+    OBLIGATION(!isLargeObject(ourMem, p), "C17.recognise: an address inside a slab is never taken for a large object by free/msize/realloc (whatever bytes lie below it)");
+    OBLIGATION(!isLargeObject(unknownMem, p), "C17.recognise: ... nor by the pointer-recognition used for foreign pointers");
+    VACUITY_END();
+}
+#endif
+void h_aligned_large(void) {
+    size_t size, al; char *r = run_aligned(&size, &al, true);
+    __CPROVER_assume(r != NULL);                                        /* the answer is a large object (no slab object exists in this job) */
+    OBLIGATION(((uintptr_t)r & (al - 1)) == 0, "C17.aligned: the block is aligned to the requested alignment");
+    OBLIGATION(g_llo_size >= size, "C17.aligned: the large object is asked for at least the requested size");
+#ifndef ALN_RECSTUB
+    OBLIGATION(isLargeObject(ourMem, r), "C17.aligned: a large block is recognised as a large object by free/msize/realloc");
+#else
+    size_t ms = internalMsize(r);
+    OBLIGATION(ms >= size, "C17.msize: scalable_msize of an aligned large block is at least the requested size");
+    OBLIGATION(ms <= g_U - g_poff, "C17.msize: scalable_msize never reaches past the end of the backend block");
+#endif
+    VACUITY_END();
+}
+#endif
+
+#ifdef LLOC
+/* ---- MemoryPool::getFromLLOCache: where a large object is placed inside the backend block it gets, and the bin arithmetic of the large-object cache ---- */
+#define VERIF_SELECT_SIZE_T(u, ull) ((sizeof(size_t) == sizeof(u)) ? (u) : (ull))   /* tbb::detail::select_size_t_constant<u, ull>::value */
+#define VERIF_LOG2(n) (63 - __builtin_clzll((unsigned long long)(n)))                  /* Log2<n>::value for n > 0 (compile-time recursion in shared_utils.h) */
+#include "locbins.inc"
+/* Ghost memory: the block header (LargeMemoryBlock at address A_lmb, any address) and the ONE object header the function writes.  Addresses are plain integers; nothing is
+   dereferenced, so no assumption on where the block lies or how it is aligned is needed. */
+static uintptr_t A_hdr; static size_t m_lmb_objectSize; static BackRefIdx m_lmb_backRefIdx;
+static bool w_hdr_memoryBlock, w_hdr_backRefIdx, w_lmb_objectSize; static LargeMemoryBlock *m_hdr_memoryBlock; static BackRefIdx m_hdr_backRefIdx; static uintptr_t A_hdr2;
+static LargeMemoryBlock *nondet_lmbp(void); static BackRefIdx nondet_idx(void);
+#define LMB_RD(p, f) (*({ __CPROVER_assert((uintptr_t)(p) == A_lmb, "C17.lloc: only the block that was obtained is read"); &m_lmb_##f; }))
+#define LMB_WR(p, f, v) do { __CPROVER_assert((uintptr_t)(p) == A_lmb, "C17.lloc: only the block that was obtained is written"); m_lmb_##f = (v); w_lmb_##f = true; } while (0)
+static bool w_lmb_unalignedSize, w_lmb_backRefIdx;
+/* stores into the object header: the place of the first store is recorded, a store anywhere else is a second header (an obligation below) */
+#define HDR_WR(p, f, v) do { if (!w_hdr_memoryBlock && !w_hdr_backRefIdx) A_hdr = (uintptr_t)(p); else if ((uintptr_t)(p) != A_hdr) A_hdr2 = (uintptr_t)(p); m_hdr_##f = (v); w_hdr_##f = true; } while (0)
+static LargeMemoryBlock *hdr_rd_memoryBlock(uintptr_t a) { if (a == A_hdr && w_hdr_memoryBlock) return m_hdr_memoryBlock; return nondet_lmbp(); }   /* anything else in memory: arbitrary */
+static BackRefIdx hdr_rd_backRefIdx(uintptr_t a) { if (a == A_hdr && w_hdr_backRefIdx) return m_hdr_backRefIdx; return nondet_idx(); }
+#define HDR_RD(p, f) hdr_rd_##f((uintptr_t)(p))
+#include "recog_acc.inc"
+int g_get_calls, g_mlo_calls, g_setbr_calls; size_t g_asked, g_size, g_al; bool g_have_blk, g_blk_used;
+static void STUB_tls_markUsed(TLSData *tls) {}
+/* contract of the two block sources (thread-local cache LocalLOC::get: exact size match; ExtMemoryPool::mallocLargeObject: cached block of that bin or Backend::getLargeBlock(size),
+   which sets unalignedSize = size): NULL, or a block with unalignedSize >= the size asked for and a back-reference index whose largeObj bit is set (BackRefIdx::newBackRef(true)) */
+static LargeMemoryBlock *give(size_t sz) {
+    g_asked = sz;
+    if (nondet_bool() || !g_have_blk) return NULL;
+    __CPROVER_assume(!g_blk_used && sz <= m_lmb_unalignedSize); g_blk_used = true;
+    return (LargeMemoryBlock *)A_lmb;
+}
+static LargeMemoryBlock *STUB_lloc_get(TLSData *tls, size_t sz) { g_get_calls++; return give(sz); }
+static LargeMemoryBlock *STUB_mallocLargeObject(MemoryPool *mp, size_t sz) { g_mlo_calls++; return give(sz); }
+static void STUB_setBackRef(BackRefIdx idx, void *p) { g_setbr_calls++; g_reg = true; g_reg_idx = idx; g_reg_ptr = p; }
+#ifdef LLOC_PLACE   /* in the placement job the bin rounding is left arbitrary: all that is used of it is the lemma above */
+static size_t STUB_alignToBin_any(size_t x) {   /* lemma proved for every size and alignment in job lloc.guard: the rounded size either fails the wrap test (< size) or has room for object + headers + alignment */
+    size_t a = nondet_size_t(); __CPROVER_assume(a < g_size || a - g_size >= sizeof(LargeMemoryBlock) + sizeof(LargeObjectHdr) + g_al); return a; }
+#define LargeObjectCache_alignToBin STUB_alignToBin_any
+#endif
+/* a debug assertion of the sliced code is a proof obligation and, once discharged, a fact for what follows */
+#undef VERIF_ASSERT
+#define VERIF_ASSERT(c, m) do { __CPROVER_assert((c), "TBB_ASSERT: " m); __CPROVER_assume(c); } while (0)
+#include "lloc.inc"
+#undef VERIF_ASSERT
+#define VERIF_ASSERT(c, m) __CPROVER_assert((c), "TBB_ASSERT: " m)
+#undef LargeObjectCache_alignToBin
+size_t IN_size, IN_align, IN_s1, IN_s2, IN_U; uintptr_t IN_base; unsigned IN_cacheIdx;
+static MemoryPool g_pool; static TLSData g_tls;
+void h_lloc_guard(void) {          /* full 64-bit domain; no block is handed out: what is the backend asked for? */
+    size_t size = IN_size = nondet_size_t(), al = IN_align = nondet_size_t();
+    __CPROVER_assume(al >= estimatedCacheLineSize && (al & (al - 1)) == 0);      /* callers pass max(alignment, largeObjectAlignment), a power of two */
+    g_have_blk = false; g_get_calls = g_mlo_calls = 0; g_tls.currCacheIdx = nondet_unsigned();
+    void *r = MemoryPool_getFromLLOCache(&g_pool, nondet_bool() ? &g_tls : NULL, size, al);
+    OBLIGATION(r == NULL, "C17.lloc: no block, no object");
+    if (g_get_calls + g_mlo_calls > 0)
+        OBLIGATION(g_asked >= size && g_asked - size >= sizeof(LargeMemoryBlock) + sizeof(LargeObjectHdr) + al, "C17.lloc: a block is only ever asked for with room for the object, both headers and the alignment slack - size+headers+alignment did not wrap around");
+    VACUITY_END();
+}
+/* the placement proof is split by alignment (the shuffle arithmetic is hard for SAT at small alignments): one job per alignment 2^6 .. 2^31, one job for every power of two >= 2^32 */
+#ifndef LLOC_ALIGN_EXP
+#ifndef LLOC_ALIGN_MIN_EXP
+#define LLOC_ALIGN_MIN_EXP 6
+#endif
+#define LLOC_AL_OK(al) ((al) >= ((size_t)1 << LLOC_ALIGN_MIN_EXP) && ((al) & ((al) - 1)) == 0)
+#else
+#define LLOC_AL_OK(al) ((al) == ((size_t)1 << LLOC_ALIGN_EXP))
+#endif
+void h_lloc_place(void) {
+    size_t size = IN_size = nondet_size_t(), al = IN_align = nondet_size_t();
+    __CPROVER_assume(LLOC_AL_OK(al));
+#ifdef LLOC_ALIGN_EXP
+    al = (size_t)1 << LLOC_ALIGN_EXP;
+#endif
+    A_lmb = IN_base = nondet_uintptr_t(); m_lmb_unalignedSize = IN_U = nondet_size_t(); m_lmb_objectSize = nondet_size_t();
+    __CPROVER_assume(A_lmb != 0 && A_lmb < ((uintptr_t)1 << 47) && m_lmb_unalignedSize < ((uintptr_t)1 << 47) - A_lmb);   /* a real block: [A_lmb, A_lmb+U) lies in the user half of the x86-64 address space (also keeps CBMC's 8 object bits of a pointer zero) */
+    m_lmb_backRefIdx.main = nondet_u32(); m_lmb_backRefIdx.offset = nondet_ushort(); m_lmb_backRefIdx.largeObj = 1;
+    g_size = size; g_al = al; g_have_blk = true; g_blk_used = false; g_get_calls = g_mlo_calls = g_setbr_calls = 0; g_reg = false; g_tls.currCacheIdx = IN_cacheIdx = nondet_unsigned();
+    w_hdr_memoryBlock = w_hdr_backRefIdx = w_lmb_objectSize = w_lmb_unalignedSize = w_lmb_backRefIdx = false; A_hdr = A_hdr2 = 0;
+    void *r = MemoryPool_getFromLLOCache(&g_pool, nondet_bool() ? &g_tls : NULL, size, al);
+    __CPROVER_assume(r != NULL);
+    uintptr_t p = (uintptr_t)r, lo = A_lmb, U = IN_U;
+    OBLIGATION(g_blk_used, "C17.lloc: an object is only returned out of a block that was obtained for it");
+    OBLIGATION((p & (al - 1)) == 0, "C17.lloc: the large object is aligned as requested");
+    OBLIGATION(p >= lo && p - lo >= sizeof(LargeMemoryBlock) + sizeof(LargeObjectHdr), "C17.lloc: the object and its header lie clear of the block's LargeMemoryBlock (allocator metadata)");
+    OBLIGATION(size <= U && p <= lo + U && lo + U >= p + size, "C17.lloc: the object [p, p+size) ends inside the backend block");   /* no wrap: lo + U < 2^47 and size <= U */
+    OBLIGATION(A_hdr == p - sizeof(LargeObjectHdr) && A_hdr2 == 0 && w_hdr_memoryBlock && w_hdr_backRefIdx, "C17.lloc: exactly one object header is written, right below the object");
+    OBLIGATION((uintptr_t)m_hdr_memoryBlock == lo && w_lmb_objectSize && m_lmb_objectSize == size, "C17.lloc: the header below the object leads to its block, and the block records the requested size (what scalable_msize reports)");
+    OBLIGATION(g_reg && (uintptr_t)g_reg_ptr == A_hdr && g_reg_idx.main == m_hdr_backRefIdx.main && g_reg_idx.offset == m_hdr_backRefIdx.offset && m_hdr_backRefIdx.largeObj, "C17.lloc: the header is registered in the back-reference table under the index stored in it (free/msize will recognise the pointer)");
+    OBLIGATION(!w_lmb_unalignedSize && !w_lmb_backRefIdx, "C17.lloc: the block's size record and index are left alone");
+    VACUITY_END();
+}
+void h_lloc_bins(void) {
+    size_t s1 = IN_s1 = nondet_size_t(), s2 = IN_s2 = nondet_size_t();
+    __CPROVER_assume(s1 >= 1 && s1 <= maxHugeSize);
+    size_t a1 = LargeObjectCache_alignToBin(s1);
+    OBLIGATION(a1 >= s1, "C17.lloc: a bin size is at least the size it stands for");
+    OBLIGATION(LargeObjectCache_alignToBin(a1) == a1, "C17.lloc: bin sizes are fixed points of alignToBin (the caches match sizes exactly)");
+    OBLIGATION(a1 >= minLargeSize, "C17.lloc: no bin below the smallest large size");
+    if (a1 < maxHugeSize) {
+        int i1 = LargeObjectCache_sizeToIdx(a1);
+        int b1 = a1 < maxLargeSize ? LargeBS_sizeToIdx(a1) : HugeBS_sizeToIdx(a1);      /* what LargeObjectCacheImpl<Props>::get/put index bin[] with */
+        OBLIGATION(b1 >= 0 && (unsigned)b1 < (a1 < maxLargeSize ? LargeBS_NumBins : HugeBS_NumBins), "C17.lloc: the bin index of a cacheable size is inside its cache's bin array");
+        __CPROVER_assume(s2 >= minLargeSize && s2 < maxHugeSize && LargeObjectCache_alignToBin(s2) == s2);
+        int i2 = LargeObjectCache_sizeToIdx(s2);
+        OBLIGATION(i1 != i2 || a1 == s2, "C17.lloc: one bin, one size: two different bin sizes never share a sorting index (putList groups blocks by it and files the group under the first block's size)");
+        if ((a1 < maxLargeSize) == (s2 < maxLargeSize)) {
+            int b2 = s2 < maxLargeSize ? LargeBS_sizeToIdx(s2) : HugeBS_sizeToIdx(s2);
+            OBLIGATION(b1 != b2 || a1 == s2, "C17.lloc: one bin, one size: two different bin sizes never share a bin (a block taken from the bin of a request is exactly as large as the request)");
+        }
+    }
+    VACUITY_END();
+}
+#endif
+
+#ifdef PFL
+/* ---- the public free list protocol.  Shared words of one slab: P = publicFreeList (NULL | UNUSABLE | a chain of publicly freed objects), N = nextPrivatizable (the owner's bin
+   T | a link of the owner's mailbox list | UNUSABLE for an orphaned slab); M = the owner bin's mailbox (under mailLock).  Rely/guarantee, SC, any number of threads.
+   Ghost: g_inflight = number of threads that turned P from NULL into a chain and have not yet put the slab into the mailbox (the "notifier"); me_inflight: that is me. ---- */
+typedef struct Bin { Block *activeBlk; Block *mailbox; int mailLock; } Bin;
+static Block blk; static Bin bin;
+#define T_BIN ((Block *)&bin)
+#define MARK ((void *)(intptr_t)1)
+#define SOLID(p) ((((intptr_t)(p)) | 1) != 1)
+#define P (blk.publicFreeList)
+#define N (blk.nextPrivatizable)
+unsigned long g_inflight; bool me_inflight, me_owner, me_lock;
+#define INV (g_inflight <= 1 && (unsigned long)me_inflight <= g_inflight \
+  && (g_inflight == 0 || (SOLID(P) && N == T_BIN))            /* a notifier is under way: the list is not empty, the slab is neither in the mailbox nor orphaned */ \
+  && (N != (Block *)MARK || P != NULL)                         /* an orphaned slab never shows an empty (NULL) list: no foreign free will go looking for its dead owner's bin */ \
+  && (P != NULL || N == T_BIN)                                 /* an empty list belongs to a slab that is with its owner and not in the mailbox */ \
+  && bin.mailbox != T_BIN && bin.mailbox != (Block *)MARK)     /* the mailbox holds slabs */
+static void interfere(void) {
+    FreeObject *oP = P; Block *oN = N, *oM = bin.mailbox; unsigned long oI = g_inflight;
+    P = nondet_ptr(); N = nondet_ptr(); g_inflight = nondet_ulong(); bin.mailbox = nondet_ptr();
+    __CPROVER_assume(INV);
+    if (me_lock) __CPROVER_assume(bin.mailbox == oM);                                  /* the mailbox is written under its lock only */
+    if (me_owner) {                                                                    /* what the threads that are NOT the owner (not the exclusive holder of an orphan) never do: */
+        __CPROVER_assume(oP == NULL || P != NULL);                                     /* reset the list */
+        __CPROVER_assume(P != (FreeObject *)MARK || oP == (FreeObject *)MARK);         /* mark it unusable */
+        __CPROVER_assume(oN == T_BIN ? (N == T_BIN || (oI == 1 && N != (Block *)MARK)) : N == oN);   /* write nextPrivatizable, except the one notifier under way, who links the slab into the mailbox */
+        __CPROVER_assume(!(oI == 0 && oP != NULL) || g_inflight == 0);                 /* become a notifier without having seen an empty list */
+    }
+}
+/* every atomic step: interference; the operation; the site's ghost update; the guarantee */
+#define RG_SITE(site, f, op) ({ interfere(); FreeObject *oP_ = P; Block *oN_ = N; unsigned long oI_ = g_inflight; bool omeI_ = me_inflight; __typeof__(f) old_ = (f); __typeof__(op) r_ = (op); GHOST_##site; \
+    __CPROVER_assert(INV, "guarantee: protocol invariant re-established at " #site " (one notifier at most, and only while the list is non-empty and the slab is with its owner outside the mailbox; an orphaned slab never has a NULL list; a NULL list means the slab is with its owner)"); \
+    __CPROVER_assert(me_owner || P == oP_ || SOLID(P), "guarantee: a foreign thread only ever pushes objects - it never resets the list or marks it unusable, at " #site); \
+    __CPROVER_assert(me_owner || N == oN_ || (omeI_ && oN_ == T_BIN && N != (Block *)MARK), "guarantee: a foreign thread writes nextPrivatizable only as the notifier under way, to link the slab into the mailbox, at " #site); \
+    __CPROVER_assert(g_inflight <= oI_ || oP_ == NULL, "guarantee: a thread becomes the notifier only by turning an empty (NULL) list into a chain, at " #site); \
+    r_; })
+#define ATOMIC_LOAD_AT(site, f) RG_SITE(site, f, (f))
+#define ATOMIC_STORE_AT(site, f, v) RG_SITE(site, f, ((f) = (v), 0))
+#define ATOMIC_XCHG_AT(site, f, v) RG_SITE(site, f, ((f) = (v), old_))
+#define ATOMIC_CAS_AT(site, f, e, d) RG_SITE(site, f, ((f) == *(e) ? ((f) = (d), true) : (*(e) = (f), false)))
+#define LOCK_MUTEX(m) do { __CPROVER_assert(!me_lock, "C17.pfl: the mailbox lock is not taken twice"); interfere(); me_lock = true; } while (0)
+#define UNLOCK_MUTEX(m) do { me_lock = false; } while (0)
+/* free objects' link words live in ghost memory: the detached public chain is unfolded node by node (any well-formed chain of g_n objects ending in g_endmark) */
+FreeObject *g_cur, *g_cur_next, *g_endmark, *g_link_of, *g_link_val, *g_fl0, *g_taken; size_t g_n, g_pos, g_ac0; unsigned g_links, g_xchg, g_pub_n, g_added; FreeObject *g_pub_prev, *g_xchg_val; Block *g_added_oldN, *g_added_link; Bin *g_added_bin;
+static FreeObject *nondet_solid(void) { FreeObject *p = nondet_ptr(); __CPROVER_assume(SOLID(p)); return p; }
+static FreeObject *fo_next(FreeObject *p) {
+    if (p != g_cur) { __CPROVER_assert(p == g_cur_next && SOLID(g_cur_next), "C17.freelist: the chain is walked link by link and not past its end"); g_pos++; g_cur = g_cur_next; g_cur_next = (g_pos + 1 == g_n) ? g_endmark : nondet_solid(); __CPROVER_assume(g_cur_next != g_cur); /* a well-formed chain does not loop */ }
+    return g_cur_next;
+}
+#define FO_NEXT(p) fo_next(p)
+#define FO_SET_NEXT(p, v) do { g_link_of = (p); g_link_val = (v); g_links++; } while (0)
+#define NOG ((void)0)
+#define GHOST_ppfl_XCHG_1 { g_xchg++; g_xchg_val = P; g_taken = old_; if (SOLID(old_)) { g_cur = old_; g_pos = 0; g_n = nondet_size_t(); \
+    __CPROVER_assume(g_n >= 1 && g_n <= blk.allocatedCount);   /* accounting invariant of the slab: publicly freed objects are still counted in allocatedCount (free.public leaves the counter alone) */ \
+    g_cur_next = (g_n == 1) ? g_endmark : nondet_solid(); __CPROVER_assume(g_cur_next != g_cur); } }
+#define GHOST_ppfl_LOAD_1 NOG
+#define GHOST_fpo2_LOAD_1 NOG
+#define GHOST_fpo2_LOAD_2 NOG
+#define GHOST_fpo2_CAS_1 if (r_) { g_pub_n++; g_pub_prev = oP_; \
+    __CPROVER_assert(g_link_of == P && g_link_val == oP_, "C17.pfl: the pushed object links to the list head it replaces (no publicly freed object is dropped, whatever was pushed or privatised meanwhile)"); \
+    if (oP_ == NULL) { g_inflight++; me_inflight = true; } }
+#define GHOST_apfb_LOAD_1 NOG
+#define GHOST_apfb_STORE_1 { g_added++; g_added_oldN = oN_; g_added_link = N; g_added_bin = self; if (me_inflight) { g_inflight--; me_inflight = false; } }
+#define GHOST_apfb_STORE_2 NOG
+#define GHOST_rts_CAS_1 NOG
+#define GHOST_so_LOAD_1 NOG
+#define GHOST_so_LOAD_2 NOG
+#define GHOST_so_LOAD_3 NOG
+#define GHOST_so_STORE_1 NOG
+/* sites that do not exist in the current text: a change that turns one atomic operation into another is then judged by the guarantees, not by a missing macro */
+#define GHOST_rts_STORE_1 NOG
+#define GHOST_rts_XCHG_1 NOG
+#define GHOST_rts_LOAD_1 NOG
+#define GHOST_rts_CAS_2 NOG
+#define GHOST_so_STORE_2 NOG
+#define GHOST_so_LOAD_4 NOG
+#define GHOST_so_CAS_1 NOG
+#define GHOST_so_XCHG_1 NOG
+#define GHOST_fpo2_STORE_1 NOG
+#define GHOST_fpo2_XCHG_1 NOG
+#define GHOST_fpo2_LOAD_3 NOG
+#define GHOST_fpo2_CAS_2 NOG
+#define GHOST_ppfl_STORE_1 NOG
+#define GHOST_ppfl_LOAD_2 NOG
+#define GHOST_ppfl_CAS_1 NOG
+#define GHOST_ppfl_XCHG_2 NOG
+#define GHOST_apfb_LOAD_2 NOG
+#define GHOST_apfb_STORE_3 NOG
+#define GHOST_apfb_XCHG_1 NOG
+static bool STUB_isOwnedByCurrentThread(Block *b) { return me_owner; }
+static int g_orphaned; static void STUB_markOrphaned(Block *b) { g_orphaned++; }
+#define PFL_ASSIGNS blk.publicFreeList, blk.nextPrivatizable, bin.mailbox, g_inflight
+/* at the loop head temp is the node the ghost stands on, or (right after `temp = temp->next`, the ghost follows at the next read) its solid successor */
+#define AT_POS(q) ((q) < g_n && (size_t)blk.allocatedCount + 1 + (q) == g_ac0)
+#define LOOP_ppfl_1 __CPROVER_assigns(temp, blk.allocatedCount, g_pos, g_cur, g_cur_next) \
+    __CPROVER_loop_invariant(g_pos < g_n && g_n <= g_ac0 && g_cur_next != g_cur && (g_pos + 1 == g_n ? g_cur_next == g_endmark : SOLID(g_cur_next)) \
+        && (temp == g_cur ? AT_POS(g_pos) : (temp == g_cur_next && SOLID(g_cur_next) && AT_POS(g_pos + 1)))) \
+    __CPROVER_decreases(g_n - g_pos - (temp == g_cur ? 0 : 1))
+#define LOOP_fpo2_1 __CPROVER_assigns(localPublicFreeList, PFL_ASSIGNS, me_inflight, g_link_of, g_link_val, g_links, g_pub_n, g_pub_prev) __CPROVER_loop_invariant(INV && !me_inflight && g_pub_n == 0)
+#define LOOP_so_1 __CPROVER_assigns(count, PFL_ASSIGNS) __CPROVER_loop_invariant(INV && !me_inflight && P != NULL && count >= 1 && count <= 256)
+#include "pfl.inc"
+#define PRE(c) do { P = nondet_ptr(); N = nondet_ptr(); bin.mailbox = nondet_ptr(); g_inflight = nondet_ulong(); me_inflight = false; me_lock = false; g_endmark = nondet_bool() ? NULL : (FreeObject *)MARK; \
+    blk.allocatedCount = nondet_ushort(); blk.objectSize = nondet_ushort(); blk.freeList = nondet_ptr(); blk.previous = nondet_ptr(); g_links = g_xchg = g_pub_n = g_added = 0; g_orphaned = 0; \
+    __CPROVER_assume(blk.objectSize >= 8 && blk.objectSize <= fittingSize5 && blk.allocatedCount <= (slabSize - sizeof(Block)) / blk.objectSize); __CPROVER_assume(INV && (c)); } while (0)
+void h_pfl_push(void) {          /* any thread that does not own the slab frees one of its objects */
+    me_owner = false; PRE(1); FreeObject *obj = nondet_solid(); uint16_t ac0 = blk.allocatedCount; FreeObject *fl0 = blk.freeList;
+    Block_freePublicObject2(&blk, obj);
+    OBLIGATION(g_pub_n == 1, "C17.pfl: exactly one successful push of the freed object");
+    OBLIGATION((g_added == 1) == (g_pub_prev == NULL) && g_added <= 1, "C17.pfl: the slab is handed to its owner's mailbox exactly when this push turned an empty (NULL) list into a chain - not when the list was marked unusable (orphan) or already held objects (somebody else does it)");
+    if (g_added) OBLIGATION(g_added_bin == &bin && g_added_oldN == T_BIN && g_added_link != (Block *)MARK, "C17.pfl: it goes to the bin of its current owner, was not in a mailbox before, and is linked in front of that mailbox's list");
+    OBLIGATION(!me_inflight && !me_lock, "C17.pfl: the notifier is done when the call returns, the mailbox lock released");
+    OBLIGATION(blk.allocatedCount == ac0 && blk.freeList == fl0, "C17.pfl: a foreign thread leaves the owner's private fields alone");
+    VACUITY_END();
+}
+void h_pfl_ready(void) {         /* the owner, slab not in the mailbox */
+    me_owner = true; PRE(N == T_BIN);
+    bool r = Block_readyToShare(&blk); FreeObject *after = P; interfere();
+    OBLIGATION(after != NULL && P != NULL, "C17.pfl: after readyToShare the list is never empty (NULL) again until the slab is adopted: a later foreign free cannot take itself for the first one");
+    OBLIGATION(!r || (after == (FreeObject *)MARK && g_inflight == 0), "C17.pfl: readyToShare answers true only if it marked the empty list unusable - then no notifier exists");
+    VACUITY_END();
+}
+void h_pfl_share(void) {         /* the owner abandons the slab (thread exit) */
+    me_owner = true; PRE(1);
+    Block_shareOrphaned(&blk, (intptr_t)T_BIN, nondet_unsigned());
+    OBLIGATION(N == (Block *)MARK && P != NULL, "C17.pfl: an orphaned slab is marked in nextPrivatizable and its list is not NULL: no foreign free will look for the dead owner's bin");
+    OBLIGATION(g_inflight == 0, "C17.pfl: when the slab is orphaned no thread is still on its way to the dead owner's mailbox with it");
+    OBLIGATION(g_orphaned == 1 && blk.previous == NULL, "C17.pfl: ownership is dropped once");
+    VACUITY_END();
+}
+void h_pfl_privatize(void) {     /* the owner (reset) taking a slab out of its mailbox / adopting an orphan, or the exclusive holder of the orphan list (no reset) */
+    bool reset = nondet_bool(); me_owner = true;
+    PRE(P != NULL && g_inflight == 0 && (reset ? N == T_BIN : N == (Block *)MARK));
+    g_ac0 = blk.allocatedCount; g_fl0 = blk.freeList;
+    Block_privatizePublicFreeList(&blk, reset);
+    OBLIGATION(g_xchg == 1 && g_xchg_val == (reset ? NULL : (FreeObject *)MARK), "C17.pfl: the public list is detached by ONE atomic exchange that leaves NULL (owner) or the unusable mark (orphan): every object pushed before it is in the detached chain, every later push starts a new list - none is privatised twice or lost");
+    if (SOLID(g_taken)) {
+        OBLIGATION((size_t)blk.allocatedCount + g_n == g_ac0, "C17.pfl: allocatedCount drops by exactly the number of objects in the detached chain");
+        OBLIGATION(blk.freeList == g_taken && g_links == 1 && g_link_of == g_cur && g_pos + 1 == g_n && g_link_val == g_fl0, "C17.pfl: the detached chain, untouched but for its last link, is put in front of the private free list: every publicly freed object becomes allocatable again, the old private list is kept");
+    } else
+        OBLIGATION(blk.allocatedCount == g_ac0 && blk.freeList == g_fl0 && g_links == 0, "C17.pfl: nothing to privatise: the private fields stay as they were");
+    VACUITY_END();
+}
+void h_pfl_pop(void) {
+    me_owner = true; PRE(1); uint16_t ac0 = blk.allocatedCount; FreeObject *fl0 = blk.freeList;
+    __CPROVER_assume(ac0 < (slabSize - sizeof(Block)) / blk.objectSize || fl0 == NULL);    /* accounting invariant: objects on the free list are not counted as allocated */
+    g_cur = fl0; g_n = 2; g_pos = 0; g_cur_next = nondet_ptr();
+    FreeObject *r = Block_allocateFromFreeList(&blk);
+    OBLIGATION(r == fl0, "C17.freelist: the head of the private free list is handed out (NULL if the list is empty)");
+    if (fl0 != NULL) OBLIGATION(blk.freeList == g_cur_next && g_pos == 0 && blk.allocatedCount == ac0 + 1 && g_links == 0, "C17.freelist: the list continues with the successor of the object handed out - that object is no longer on it - and it is counted as allocated");
+    else OBLIGATION(blk.allocatedCount == ac0 && blk.freeList == NULL, "C17.freelist: an empty list changes nothing");
+    VACUITY_END();
+}
+#endif
+
+#ifdef BE
+/* ---- backend: the boundary tags (GuardedSize words: a block's size, or LOCKED / COAL_BLOCK while one thread holds it), FreeBlock::tryLockBlock, Backend::splitBlock ---- */
+typedef struct GuardedSize { uintptr_t value; } GuardedSize;
+typedef struct FreeBlock { GuardedSize myL, leftL; struct FreeBlock *prev, *next, *nextToFree; size_t sizeTmp; int myBin; bool slabAligned, blockInBin; } FreeBlock;
+_Static_assert(sizeof(FreeBlock) == 56, "FreeBlock view (checked against the real class in tv)");
+#define minBlockSize sizeof(FreeBlock)          /* const size_t FreeBlock::minBlockSize = sizeof(FreeBlock); (pattern-checked in spec.py) */
+#include "alignp.inc"
+#ifdef BE_GUARD
+/* Rely/guarantee on the guard words.  The words live in ghost memory and are found by address, so blocks may lie anywhere.  Word 1 is the word under test (myL of block F in the
+   two-word job); word 2 is leftL of F's right neighbour.  gO_k = number of threads holding word k (it then reads LOCKED or COAL_BLOCK), meO_k: I hold it.
+   Boundary-tag rely (two-word job): while F's own tag is free, or held by me, F has size g_S: a free tag 1 reads g_S, and tag 2 (at F+g_S) reads g_S when free. */
+static uintptr_t W1, W2, A1, A2, g_S; unsigned long gO1, gO2; bool meO1, meO2, two_words;
+#define HELD(w) ((w) <= 1)          /* <= MAX_LOCKED_VAL */
+#define INV1 (gO1 <= 1 && (unsigned long)meO1 <= gO1 && (HELD(W1) == (gO1 == 1)))
+#define INV2 (gO2 <= 1 && (unsigned long)meO2 <= gO2 && (HELD(W2) == (gO2 == 1)))
+#define BT (!two_words || ((HELD(W1) || W1 == g_S) && (!(!HELD(W1) || meO1) || HELD(W2) || W2 == g_S)))
+#define INV (INV1 && INV2 && BT)
+static void interfere(void) {
+    uintptr_t o1 = W1, o2 = W2;
+    W1 = nondet_uintptr_t(); W2 = nondet_uintptr_t(); gO1 = nondet_ulong(); gO2 = nondet_ulong();
+    __CPROVER_assume(INV);
+    if (meO1) __CPROVER_assume(W1 == o1);          /* a word that one thread holds is written by that thread only */
+    if (meO2) __CPROVER_assume(W2 == o2);
+}
+static uintptr_t *gw(void *a) { __CPROVER_assert((uintptr_t)a == A1 || (two_words && (uintptr_t)a == A2), "C17.guard: only the guard words of the block and of its right neighbour (found through the size read from the block's own tag) are touched"); return (uintptr_t)a == A1 ? &W1 : &W2; }
+#define RG_SITE(site, f, op) ({ interfere(); uintptr_t *w_ = gw(&(f)); bool first_ = (w_ == &W1); uintptr_t o1_ = W1, o2_ = W2; unsigned long oO1_ = gO1, oO2_ = gO2; bool om1_ = meO1, om2_ = meO2; uintptr_t old_ = *w_; __typeof__(op) r_ = (op); GHOST_GS; \
+    __CPROVER_assert(INV, "guarantee: a guard word reads LOCKED/COAL_BLOCK exactly while one thread holds it, and at most one thread holds it; sizes on both sides of a border agree, at " #site); \
+    __CPROVER_assert((!(oO1_ == 1 && !om1_) || W1 == o1_) && (!(oO2_ == 1 && !om2_) || W2 == o2_), "guarantee: a guard word held by another thread is not written, at " #site); \
+    r_; })
+/* ghost: taking = a successful CAS from a size to LOCKED/COAL_BLOCK; releasing = a store of a size by the holder */
+#define GHOST_GS do { if (first_) { if (!HELD(old_) && HELD(W1)) { gO1++; meO1 = true; } else if (HELD(old_) && !HELD(W1) && om1_) { gO1--; meO1 = false; } } \
+                      else        { if (!HELD(old_) && HELD(W2)) { gO2++; meO2 = true; } else if (HELD(old_) && !HELD(W2) && om2_) { gO2--; meO2 = false; } } } while (0)
+#define ATOMIC_LOAD_AT(site, f) RG_SITE(site, f, (*w_))
+#define ATOMIC_STORE_AT(site, f, v) RG_SITE(site, f, (*w_ = (v), 0))
+#define ATOMIC_CAS_AT(site, f, e, d) RG_SITE(site, f, (*w_ == *(e) ? (*w_ = (d), true) : (*(e) = *w_, false)))
+#define ATOMIC_XCHG_AT(site, f, v) RG_SITE(site, f, (*w_ = (v), old_))          /* not in the current text; present so that a change to another primitive is judged by the guarantees */
+#define ATOMIC_FETCH_ADD_AT(site, f, v) RG_SITE(site, f, (*w_ += (v), old_))
+#define ATOMIC_FETCH_OR_AT(site, f, v) RG_SITE(site, f, (*w_ |= (v), old_))
+/* tryLock spins on ONE word, which the caller does not hold; what it holds of the other word does not change */
+#define LOOP_gs_tryLock_1 __CPROVER_assigns(sz, W1, W2, gO1, gO2, meO1, meO2) \
+    __CPROVER_loop_invariant(INV && ((uintptr_t)self == A1 ? (!meO1 && meO2 == __CPROVER_loop_entry(meO2) && (!meO2 || W2 == __CPROVER_loop_entry(W2))) : (!meO2 && meO1 == __CPROVER_loop_entry(meO1) && (!meO1 || W1 == __CPROVER_loop_entry(W1)))))
+#include "guard.inc"
+#define PRE(c) do { W1 = nondet_uintptr_t(); W2 = nondet_uintptr_t(); gO1 = nondet_ulong(); gO2 = nondet_ulong(); meO1 = nondet_bool(); meO2 = nondet_bool(); A1 = nondet_uintptr_t(); g_S = nondet_uintptr_t(); \
+    __CPROVER_assume(A1 >= 4096 && A1 < ((uintptr_t)1 << 47) && g_S >= minBlockSize && g_S < ((uintptr_t)1 << 46)); A2 = A1 + g_S + sizeof(GuardedSize); __CPROVER_assume(INV && (c)); } while (0)
+size_t IN_state, IN_size;
+void h_gs_trylock(void) {
+    two_words = false; PRE(!meO1); enum GuardedSize_State st = nondet_bool() ? LOCKED : COAL_BLOCK;
+    size_t r = GuardedSize_tryLock((GuardedSize *)A1, st); uintptr_t after = W1;
+    OBLIGATION((r > MAX_LOCKED_VAL) == meO1, "C17.guard: tryLock reports a size exactly when THIS caller took the word (unique holder among any number of callers)");
+    OBLIGATION(!meO1 || (after == (uintptr_t)st && gO1 == 1), "C17.guard: a taken word carries the requested state");
+    interfere();
+    OBLIGATION(!meO1 || W1 == (uintptr_t)st, "C17.guard: nobody else writes the word while it is held");
+    VACUITY_END();
+}
+void h_gs_unlock(void) {
+    two_words = false; PRE(meO1); size_t size = IN_size = nondet_size_t(); __CPROVER_assume(size > MAX_LOCKED_VAL);
+    GuardedSize_unlock((GuardedSize *)A1, size);
+    OBLIGATION(!meO1 && W1 == size, "C17.guard: unlock publishes the size and gives the word up");
+    VACUITY_END();
+}
+void h_gs_coal(void) {
+    two_words = false; PRE(meO1 && W1 == LOCKED);
+    GuardedSize_makeCoalscing((GuardedSize *)A1); interfere();
+    OBLIGATION(meO1 && W1 == COAL_BLOCK && gO1 == 1, "C17.guard: makeCoalscing keeps the word held, now marked as coalescing");
+    VACUITY_END();
+}
+void h_fb_trylockblock(void) {
+    two_words = true; PRE(!meO1 && !meO2);
+    size_t r = FreeBlock_tryLockBlock((FreeBlock *)A1); interfere();
+    OBLIGATION(r == 0 || (meO1 && meO2 && r == g_S && W1 == LOCKED && W2 == LOCKED), "C17.guard: a block is locked only with BOTH of its tags taken by this thread, and the size reported is the block's size");
+    OBLIGATION(r != 0 || (!meO1 && !meO2), "C17.guard: a failed attempt leaves no tag held");
+    VACUITY_END();
+}
+#endif
+#ifdef BE_SPLIT
+/* Backend::splitBlock in ghost memory: block F = [A_F, A_F + S) taken from a bin (both tags held); the pieces given back and the headers initialised are recorded in order */
+static uintptr_t A_F; static size_t g_S;
+#define FB_SIZETMP(p) (*({ __CPROVER_assert((uintptr_t)(p) == A_F, "C17.split: only the block that was taken is read"); &g_S; }))
+static bool g_fixed; static bool STUB_fixedPool(void) { return g_fixed; }
+static unsigned g_clock, g_nih, g_nrel, g_nmark; static uintptr_t g_ih[4], g_rel_p[4]; static size_t g_rel_sz[4]; static bool g_rel_al[4]; static unsigned g_ih_t[4], g_rel_t[4];
+static uintptr_t g_mark_p; static int g_mark_num; static size_t g_mark_size;
+static void STUB_initHeader(FreeBlock *b) { __CPROVER_assert(g_nih < 4, "C17.split: at most a few headers"); g_ih[g_nih] = (uintptr_t)b; g_ih_t[g_nih] = ++g_clock; g_nih++; }
+static void STUB_coalescAndPut(FreeBlock *b, size_t sz, bool al) { __CPROVER_assert(g_nrel < 4, "C17.split: at most a few pieces"); g_rel_p[g_nrel] = (uintptr_t)b; g_rel_sz[g_nrel] = sz; g_rel_al[g_nrel] = al; g_rel_t[g_nrel] = ++g_clock; g_nrel++; }
+static void STUB_markBlocks(FreeBlock *b, int num, size_t size) { g_nmark++; g_mark_p = (uintptr_t)b; g_mark_num = num; g_mark_size = size; }
+#include "split.inc"
+uintptr_t IN_F; size_t IN_S, IN_size; int IN_num; bool IN_blockAligned, IN_needAligned;
+static bool header_locked_before(uintptr_t a, unsigned t) { for (unsigned i = 0; i < 4; i++) if (i < g_nih && g_ih[i] == a && g_ih_t[i] < t) return true; return false; }
+void h_split(void) {
+    A_F = IN_F = nondet_uintptr_t(); g_S = IN_S = nondet_size_t(); int num = IN_num = nondet_int(); size_t size = IN_size = nondet_size_t();
+    bool ba = IN_blockAligned = nondet_bool(), na = IN_needAligned = nondet_bool(); g_fixed = nondet_bool();
+    __CPROVER_assume(A_F >= 4096 && A_F < ((uintptr_t)1 << 47) && g_S < ((uintptr_t)1 << 46));
+    __CPROVER_assume(num >= 1 && num <= (1 << 20) && size >= minBlockSize && size < ((size_t)1 << 44) && (num == 1 || size == slabSize) && (!na || size == slabSize));   /* callers: getSlabBlock(num) asks num*slabSize aligned; getLargeBlock / getBackRefSpace ask 1*size */
+    size_t total = (size_t)num * size;
+    __CPROVER_assume(!ba || ((A_F + g_S) & (slabSize - 1)) == 0);                                 /* a block from an aligned bin has a slab-aligned right end */
+    if (na && !ba) { uintptr_t nb = (A_F + slabSize - 1) & ~(uintptr_t)(slabSize - 1), rn = nb + total, rc = A_F + g_S;   /* what IndexedBins::getFromBin checked before it chose the block (special case) */
+        __CPROVER_assume(g_fixed && rn <= rc && (nb == A_F || nb - A_F >= minBlockSize) && (rn == rc || rc - rn >= minBlockSize)); }
+    else __CPROVER_assume(g_S >= total && (g_S - total >= minBlockSize || g_S == total));       /* (general case) */
+    g_clock = g_nih = g_nrel = g_nmark = 0;
+    uintptr_t r = (uintptr_t)Backend_splitBlock((FreeBlock *)A_F, num, size, ba, na);
+    OBLIGATION(r >= A_F && r + total <= A_F + g_S, "C17.split: the block handed out lies inside the block that was taken from the bin");
+    OBLIGATION(!na || (r & (slabSize - 1)) == 0, "C17.split: a slab request gets a slab-aligned block");
+    size_t sum = total;
+    for (unsigned i = 0; i < 2; i++) if (i < g_nrel) {
+        uintptr_t p = g_rel_p[i]; size_t sz = g_rel_sz[i]; sum += sz;
+        OBLIGATION(p >= A_F && sz <= g_S && p + sz <= A_F + g_S && (p + sz <= r || p >= r + total), "C17.split: a piece given back lies inside the block taken and does not overlap the block handed out");
+        OBLIGATION(sz >= minBlockSize, "C17.split: a piece given back has room for its own header (a smaller one would put a header into the neighbouring live block)");
+        OBLIGATION(!g_rel_al[i] || ((p + sz) & (slabSize - 1)) == 0, "C17.split: a piece filed as slab-aligned has a slab-aligned right end");
+        if (p + sz == r) OBLIGATION(header_locked_before(r, g_rel_t[i]), "C17.split: before a left piece is given back the header of the block handed out is locked: coalescing cannot run across the border into it");
+        if (p == r + total) OBLIGATION(header_locked_before(p, g_rel_t[i]), "C17.split: before a right piece is given back its own header is locked (its left tag): coalescing cannot run across the border into the block handed out");
+    }
+    OBLIGATION(g_nrel <= 2 && (g_nrel < 2 || g_rel_p[0] + g_rel_sz[0] <= g_rel_p[1] || g_rel_p[1] + g_rel_sz[1] <= g_rel_p[0]), "C17.split: the pieces given back do not overlap each other");
+    OBLIGATION(sum == g_S, "C17.split: the sizes add up: block handed out + pieces given back = block taken (nothing leaks, nothing is given back twice)");
+    OBLIGATION(g_nmark == 1 && g_mark_p == r && g_mark_num == num && g_mark_size == size, "C17.split: headers are set up for exactly the blocks handed out");
+    VACUITY_END();
+}
+#endif
+#ifdef BE_COAL
+/* Backend::doCoalesc on four blocks in a row, L | F | R | N, anywhere in memory (ghost memory found by address):  F = [A_F, A_F+sF) is the block being freed, both of its tags held
+   by this thread (LOCKED); L = [A_F-sL, A_F), R = [A_F+sF, A_F+sF+sR), N starts at A_R+sR.  A block X's size sits in X.myL and in leftL of its right neighbour; a word reads
+   LOCKED / COAL_BLOCK while one thread holds it.  Guard words: 0 L.myL  1 F.leftL  2 F.myL  3 R.leftL  4 R.myL  5 N.leftL  6 N.myL.  The real GuardedSize / FreeBlock code runs on them
+   under rely/guarantee (any number of other threads locking, unlocking, coalescing around us).  sL / sR are the sizes this thread will find when it takes the tags (prophecy: before
+   that the neighbours may be merged and split by others).  R (or N) may be the region's LastFreeBlock: its myL then reads LAST_REGION_BLOCK. */
+static uintptr_t W[7], A_L, A_F, A_R, A_N, sL, sF, sR; unsigned long gO[7]; bool me[7];
+#define HELD(w) ((w) <= 1)
+#define INVK(k) (gO[k] <= 1 && (unsigned long)me[k] <= gO[k] && (HELD(W[k]) == (gO[k] == 1)))
+static bool g_last_is_R, g_last_is_N;
+#define BT ((HELD(W[1]) || W[1] == sL) && (!(!HELD(W[1]) || me[1]) || HELD(W[0]) || W[0] == sL) && (HELD(W[4]) || W[4] == sR) && (!(!HELD(W[4]) || me[4]) || HELD(W[5]) || W[5] == sR) \
+            && (HELD(W[6]) || ((W[6] == 2 /* LAST_REGION_BLOCK */) == g_last_is_N)))          /* a region's last block is the one whose free tag reads LAST_REGION_BLOCK */
+#define INV (INVK(0) && INVK(1) && INVK(2) && INVK(3) && INVK(4) && INVK(5) && INVK(6) && BT)
+#define HAVOCK(k) uintptr_t o##k = W[k]; W[k] = nondet_uintptr_t(); gO[k] = nondet_ulong();
+#define STAYK(k) if (me[k]) __CPROVER_assume(W[k] == o##k);          /* a word that one thread holds is written by that thread only */
+static void interfere(void) {
+    HAVOCK(0) HAVOCK(1) HAVOCK(2) HAVOCK(3) HAVOCK(4) HAVOCK(5) HAVOCK(6)
+    __CPROVER_assume(INV);
+    STAYK(0) STAYK(1) STAYK(2) STAYK(3) STAYK(4) STAYK(5) STAYK(6)
+}
+static int gwi(void *p) { uintptr_t a = (uintptr_t)p;
+    __CPROVER_assert(a == A_L || a == A_F + 8 || a == A_F || a == A_R + 8 || a == A_R || a == A_N + 8 || a == A_N, "C17.coalesce: only tags of the block and of its true neighbours (found through the sizes read from held tags) are touched");
+    return a == A_L ? 0 : a == A_F + 8 ? 1 : a == A_F ? 2 : a == A_R + 8 ? 3 : a == A_R ? 4 : a == A_N + 8 ? 5 : 6; }
+#define RG_SITE(site, f, op) ({ interfere(); int k_ = gwi(&(f)); uintptr_t *w_ = &W[k_]; uintptr_t old_ = *w_; bool om_ = me[k_]; unsigned long oO_ = gO[k_]; __typeof__(op) r_ = (op); \
+    if (!HELD(old_) && HELD(*w_)) { gO[k_]++; me[k_] = true; } else if (HELD(old_) && !HELD(*w_) && om_) { gO[k_]--; me[k_] = false; } \
+    __CPROVER_assert(INV, "guarantee: every tag reads LOCKED/COAL_BLOCK exactly while one thread holds it; sizes on both sides of a border agree, at " #site); \
+    __CPROVER_assert(!(oO_ == 1 && !om_) || *w_ == old_, "guarantee: a tag held by another thread is not written, at " #site); \
+    r_; })
+#define ATOMIC_LOAD_AT(site, f) RG_SITE(site, f, (*w_))
+#define ATOMIC_STORE_AT(site, f, v) RG_SITE(site, f, (*w_ = (v), 0))
+#define ATOMIC_CAS_AT(site, f, e, d) RG_SITE(site, f, (*w_ == *(e) ? (*w_ = (d), true) : (*(e) = *w_, false)))
+#define ATOMIC_XCHG_AT(site, f, v) RG_SITE(site, f, (*w_ = (v), old_))
+/* GuardedSize::tryLock / unlock / makeCoalscing by the contracts proved on their real text in jobs guard.tryLock / guard.unlock / guard.makeCoalscing: each is ONE step on its word */
+#include "gsenum.inc"
+static size_t GuardedSize_tryLock(GuardedSize *self, enum GuardedSize_State state) {        /* a size: this caller took the word (it now reads `state`); LOCKED/COAL_BLOCK: somebody holds it, untouched */
+    __CPROVER_assert(state <= MAX_LOCKED_VAL, "TBB_ASSERT: state <= MAX_LOCKED_VAL");
+    return RG_SITE(tryLock, self->value, (HELD(*w_) ? *w_ : (*w_ = (uintptr_t)state, old_))); }
+static void GuardedSize_unlock(GuardedSize *self, size_t size) {
+    __CPROVER_assert(size > MAX_LOCKED_VAL, "TBB_ASSERT: size > MAX_LOCKED_VAL");
+    (void)RG_SITE(unlock, self->value, (__CPROVER_assert(om_ && HELD(old_), "TBB_ASSERT: The lock is not locked (unlock by the holder only)"), *w_ = size, 0)); }
+static void GuardedSize_makeCoalscing(GuardedSize *self) {
+    (void)RG_SITE(makeCoalscing, self->value, (__CPROVER_assert(om_ && old_ == LOCKED, "TBB_ASSERT: value == LOCKED (held by this thread)"), *w_ = COAL_BLOCK, 0)); }
+#include "fbm.inc"
+/* FreeBlock fields of the four blocks */
+typedef struct MemRegion { struct MemRegion *next, *prev; size_t allocSz, blockSz; int type; } MemRegion;
+typedef struct LastFreeBlock { FreeBlock fb; MemRegion *memRegion; } LastFreeBlock;
+static size_t f_sizeTmp[4]; static bool f_blockInBin[4]; static FreeBlock *f_nextToFree[4];
+static int fbi(void *p) { uintptr_t a = (uintptr_t)p; __CPROVER_assert(a == A_L || a == A_F || a == A_R || a == A_N, "C17.coalesce: only headers of the block and of its true neighbours are accessed"); return a == A_L ? 0 : a == A_F ? 1 : a == A_R ? 2 : 3; }
+#define FB_RD(p, fld) (f_##fld[fbi(p)])
+#define FB_WR(p, fld, v) do { int i_ = fbi(p); __CPROVER_assert(i_ == 1 || (i_ == 0 && me[0] && me[1]) || (i_ == 2 && me[4] && me[5]), "C17.coalesce: a neighbour's header is written only while both of its tags are held by this thread"); f_##fld[i_] = (v); } while (0)
+static uintptr_t A_MR; static size_t g_allocSz;
+static MemRegion *lfb_memRegion(void *p) { uintptr_t a = (uintptr_t)p;
+    __CPROVER_assert((a == A_R && g_last_is_R) || (a == A_N && g_last_is_N), "C17.coalesce: the region pointer is read only from a block whose tag said LAST_REGION_BLOCK");
+    return (MemRegion *)A_MR; }
+#define LFB_MEMREGION(p) lfb_memRegion(p)
+#define MR_ALLOCSZ(p) (*({ __CPROVER_assert((uintptr_t)(p) == A_MR, "C17.coalesce: the region header read is the one the last block names"); &g_allocSz; }))
+static unsigned g_nq, g_nrm; static uintptr_t g_q, g_rm[3];
+static void STUB_coalescQ_putBlock(FreeBlock *b) { g_nq++; g_q = (uintptr_t)b; }
+static void STUB_removeBlockFromBin(FreeBlock *b) { __CPROVER_assert(g_nrm < 3, "C17.coalesce: few bin removals"); g_rm[g_nrm++] = (uintptr_t)b; }
+static bool removed(uintptr_t a) { for (unsigned i = 0; i < 3; i++) if (i < g_nrm && g_rm[i] == a) return true; return false; }
+#include "coalesc.inc"
+uintptr_t IN_F; size_t IN_sL, IN_sF, IN_sR;
+void h_coalesce(void) {
+    A_F = IN_F = nondet_uintptr_t(); sL = IN_sL = nondet_size_t(); sF = IN_sF = nondet_size_t(); sR = IN_sR = nondet_size_t();
+    __CPROVER_assume(sL >= minBlockSize && sL < ((size_t)1 << 44) && sF >= minBlockSize && sF < ((size_t)1 << 44) && (sR == LAST_REGION_BLOCK || (sR >= minBlockSize && sR < ((size_t)1 << 44))));
+    __CPROVER_assume(A_F >= ((uintptr_t)1 << 45) && A_F < ((uintptr_t)1 << 46));
+    A_L = A_F - sL; A_R = A_F + sF; A_N = A_R + sR;
+    for (int k = 0; k < 7; k++) { W[k] = nondet_uintptr_t(); gO[k] = nondet_ulong(); me[k] = (k == 2 || k == 3); }
+    __CPROVER_assume(INV && W[2] == LOCKED && W[3] == LOCKED);                  /* the block being freed was taken with both tags LOCKED (tryLockBlock / initHeader) */
+    g_last_is_R = (sR == LAST_REGION_BLOCK); g_last_is_N = nondet_bool();      /* where the region ends */
+    __CPROVER_assume(!(g_last_is_R && g_last_is_N));
+    A_MR = nondet_uintptr_t(); g_allocSz = nondet_size_t();                    /* region layout: header first, then the blocks, the LastFreeBlock inside the region */
+    __CPROVER_assume(A_MR >= 4096 && A_MR < A_L - sizeof(MemRegion) && g_allocSz < ((size_t)1 << 47) && A_MR + g_allocSz >= (g_last_is_R ? A_R : A_N) + sizeof(LastFreeBlock));
+    for (int b = 0; b < 4; b++) { f_sizeTmp[b] = nondet_size_t(); f_blockInBin[b] = nondet_bool(); }
+    f_sizeTmp[1] = sF; g_nq = g_nrm = 0;
+    MemRegion *mr = (MemRegion *)(uintptr_t)77;
+    uintptr_t r = (uintptr_t)Backend_doCoalesc((FreeBlock *)A_F, &mr);
+    uintptr_t wN_seen = W[6];
+    bool gotL = me[0] && me[1], gotR = me[4] && me[5];
+    OBLIGATION(me[2] && me[3] && W[2] == COAL_BLOCK && W[3] == COAL_BLOCK, "C17.coalesce: the block being freed stays held (marked coalescing) until the caller publishes the result");
+    OBLIGATION(me[0] == me[1] && me[4] == me[5] && !me[6], "C17.coalesce: a neighbour is either held with BOTH tags (merged) or not at all - a tag taken in a failed attempt is given back");
+    OBLIGATION(!gotL || (W[0] == COAL_BLOCK && W[1] == COAL_BLOCK) , "C17.coalesce: merged left neighbour stays held");
+    OBLIGATION(!gotR || (W[4] == COAL_BLOCK && W[5] == COAL_BLOCK), "C17.coalesce: merged right neighbour stays held");
+    uintptr_t lo = gotL ? A_L : A_F; size_t tot = (gotL ? sL : 0) + sF + (gotR ? sR : 0);
+    if (r != 0) {
+        OBLIGATION(r == lo && f_sizeTmp[gotL ? 0 : 1] == tot, "C17.coalesce: the result is the block being freed together with exactly those ADJACENT neighbours whose two tags this thread took from a size (free, not in use, not being coalesced elsewhere); its size is the sum");
+        OBLIGATION(g_nq == 0, "C17.coalesce: a finished block is not also queued");
+        OBLIGATION(!gotR || (sR != LAST_REGION_BLOCK && removed(A_R)), "C17.coalesce: a merged right neighbour is a real free block and is taken out of its bin (it must not be handed out on its own any more)");
+        OBLIGATION(!gotL || f_blockInBin[0], "C17.coalesce: a merged left neighbour is flagged as sitting in a bin, so that the caller re-files or removes it");
+        OBLIGATION(mr == NULL || (gotR ? g_last_is_N : g_last_is_R), "C17.coalesce: a region is reported only if the block right after the result is that region's last block");
+        OBLIGATION(mr == NULL || mr == (MemRegion *)A_MR, "C17.coalesce: the region reported is the one the last block names");
+    } else {
+        OBLIGATION(!gotR, "C17.coalesce: a postponed block has not swallowed its right neighbour");
+        OBLIGATION(g_nq == 1 && g_q == lo && f_sizeTmp[gotL ? 0 : 1] == tot, "C17.coalesce: a postponed block is queued once, with what it has merged so far");
+        OBLIGATION(!gotL || removed(A_L), "C17.coalesce: a postponed block that swallowed its left neighbour has that neighbour taken out of its bin (it must not be handed out on its own any more)");
+        OBLIGATION(!gotL || !f_blockInBin[0], "C17.coalesce: ... and no longer flagged as in a bin");
+    }
+    VACUITY_END();
+}
+#endif
 #endif
